@@ -16,7 +16,7 @@ flock 9
 
 CC=${SIM_CC:-gcc}
 CXX=${SIM_CXX:-g++}
-SAN="-fsanitize=address -fsanitize=bounds,pointer-overflow,null -fno-sanitize-recover=all -fno-omit-frame-pointer"
+SAN="-fsanitize=address -fsanitize=bounds,pointer-overflow,null,nonnull-attribute,shift -fno-sanitize-recover=all -fno-omit-frame-pointer"
 SUT_FLAGS="-std=gnu11 -O1 -g -fopenmp -DCARQUET_VERIF -DCARQUET_ARCH_X86 -DCARQUET_ENABLE_SSE -DCARQUET_ENABLE_AVX2 -DCARQUET_ENABLE_AVX512 $SAN -fsanitize-coverage=trace-pc -I$REPO/include -I$REPO/src -w"
 if [ -n "${SIM_COV:-}" ]; then SUT_FLAGS="$SUT_FLAGS --coverage"; fi
 HAR_FLAGS="-std=gnu++17 -O1 -g $SAN -I$REPO/include -I$SIM -Wall -Wextra -Wno-unused-parameter -Wno-unused-function -Wno-missing-field-initializers"
